@@ -318,6 +318,83 @@ func c28ArraySeq(r *Rand) string {
 	return sb.String()
 }
 
+// (1c) arithmetic operators: every binary and assignment operator of the arithmetic grammar with
+// boundary operands (negative, 0, 1, 63, 64, 65, huge, INT64_MIN/MAX; as literals and through
+// variables) in every arithmetic context: $(( )), (( )), $[ ], let, for (( )), array subscripts
+// (read, write, unset), ${s:o:l} offsets and lengths, [[ -eq ]] operands, declare -i.  The operator
+// is chosen by the program's ordinal so that each one is covered evenly; one program holds several
+// operand pairs of that operator.
+var c28BinOps = []string{"+", "-", "*", "/", "%", "**", "<<", ">>", "&", "|", "^", "<", ">", "<=", ">=", "==", "!=", "&&", "||", ","}
+var c28AsgOps = []string{"=", "+=", "-=", "*=", "/=", "%=", "<<=", ">>=", "&=", "|=", "^="}
+var c28Bounds = []string{"0", "1", "-1", "2", "-2", "-5", "7", "63", "64", "65", "-63", "-64", "-65", "127", "128", "-128",
+	"2147483647", "-2147483648", "4294967296", "9223372036854775807", "-9223372036854775807", "-9223372036854775808",
+	"9223372036854775808", "99999999999999999999", "0x7fffffffffffffff", "-0x40", "077", "64#_"}
+
+func c28ArithProgram(r *Rand, ord int) string {
+	nops := len(c28BinOps) + len(c28AsgOps)
+	k := ord % nops
+	var sb strings.Builder
+	sb.WriteString("arr=(1 2 3); s=abcdef\n")
+	operand := func(name string) string { // literal, or a variable holding the boundary value
+		v := r.Pick(c28Bounds)
+		if r.Chance(40) {
+			fmt.Fprintf(&sb, "%s=%s\n", name, v)
+			if r.Chance(30) {
+				return "$" + name
+			}
+			return name
+		}
+		if strings.HasPrefix(v, "-") && r.Chance(50) {
+			return "(" + v + ")"
+		}
+		return v
+	}
+	n := 5 + r.Intn(5)
+	for i := 0; i < n; i++ {
+		var e string
+		if k < len(c28BinOps) {
+			op := c28BinOps[k]
+			x, y := operand("p"), operand("q")
+			sp := r.Pick([]string{"", " "})
+			e = x + sp + op + sp + y
+			if op == "-" || op == "+" {
+				e = x + " " + op + " " + y // avoid forming -- / ++
+			}
+		} else {
+			op := c28AsgOps[k-len(c28BinOps)]
+			fmt.Fprintf(&sb, "x=%s\n", r.Pick(c28Bounds))
+			e = "x" + op + operand("q")
+		}
+		switch r.Intn(14) {
+		case 0, 1, 2:
+			sb.WriteString("echo $((" + e + "))\n")
+		case 3:
+			sb.WriteString("((" + e + ")); echo $?\n")
+		case 4:
+			sb.WriteString("echo $[" + e + "]\n")
+		case 5:
+			sb.WriteString("let " + sq(e) + "; echo $? $x\n")
+		case 6:
+			sb.WriteString("for ((i=0; i<1; i++, " + e + ")); do echo $i; done\n")
+		case 7:
+			sb.WriteString("for ((i=" + e + "; i<1 && i>-1; i++)); do echo $i; break; done\n")
+		case 8:
+			sb.WriteString("echo \"[${arr[" + e + "]}]\"\n")
+		case 9:
+			sb.WriteString("arr[" + e + "]=v; echo ${#arr[@]}; unset 'arr[" + e + "]'\n")
+		case 10:
+			sb.WriteString("echo \"${s:" + e + "}\" \"${s:1:" + e + "}\" \"${arr[@]:" + e + "}\"\n")
+		case 11:
+			sb.WriteString("[[ " + sq(e) + " -eq 0 ]]; echo $?; [ $((" + e + ")) -gt 1 ]; echo $?\n")
+		case 12:
+			sb.WriteString("declare -i z; z=" + sq(e) + "; echo $z\n")
+		default:
+			sb.WriteString("echo $(( (" + e + ") ? (" + e + ") : -(" + e + ") ))\n")
+		}
+	}
+	return sb.String()
+}
+
 func c28BuiltinProgram(r *Rand) (script string, tags []string) {
 	name := r.Pick(c28Builtins)
 	if r.Chance(12) {
@@ -386,7 +463,7 @@ var c28Names = []string{"a", "b", "x", "y", "arr", "n", "i", "s"}
 func (g *c28Gen) name() string { return g.r.Pick(c28Names) }
 
 func (g *c28Gen) num() string {
-	return g.r.Pick([]string{"0", "1", "2", "3", "7", "-1", "10", "08", "0x1f", "2#101", "64#_", "9223372036854775807", "-9223372036854775808", "99999999999999999999"})
+	return g.r.Pick([]string{"0", "1", "2", "3", "7", "-1", "-5", "63", "64", "65", "-64", "10", "08", "0x1f", "2#101", "64#_", "9223372036854775807", "-9223372036854775808", "99999999999999999999"})
 }
 
 // arith generates an arithmetic expression; `++ -- = op=` are applied to plain names and to `a[i]`,
@@ -966,12 +1043,12 @@ func c28Search(c *Ctx, base string, corpus []string) {
 			items = append(items, c28Item{req: l, witness: l, key: "corpus\x00" + l, tags: []string{"corpus-search"}, known: true})
 		}
 	}
-	nVec, nProg, nOpts, nArr := c.N/2, c.N, c.N/10, c.N/3
+	nVec, nProg, nOpts, nArr, nArith := c.N/2, c.N*5/6, c.N/10, c.N/3, c.N/5
 	if c.Thorough() {
 		nProg = c.N * 4
 	}
 	if c.N == 0 {
-		nVec, nProg, nOpts, nArr = 0, 0, 0, 0
+		nVec, nProg, nOpts, nArr, nArith = 0, 0, 0, 0, 0
 	}
 	langs := []string{"bash", "bash", "bash", "posix", "mksh", "zsh", "bats"}
 	stdins := []string{"n", "s", "s", "e"}
@@ -982,6 +1059,10 @@ func c28Search(c *Ctx, base string, corpus []string) {
 	}
 	for i := 0; i < nArr; i++ {
 		items = append(items, c28ProgItem("bash", r.Pick(stdins), c28ArraySeq(r), nil, "search:array-sequence"))
+	}
+	for i := 0; i < nArith; i++ {
+		// ordinal offset by shard so that the shards of a thorough run do not all start at op 0
+		items = append(items, c28ProgItem(r.Pick([]string{"bash", "bash", "bash", "mksh", "zsh"}), "n", c28ArithProgram(r, i+c.Shard*7), nil, "search:arith-operators"))
 	}
 	for i := 0; i < nProg; i++ {
 		lang := r.Pick(langs)
